@@ -161,6 +161,88 @@ def computeSequenceInf (lq : LQ α) (F : M α) (ts : Nat) (x0 W : M α) : SeqOut
   | none => .indexError
   | some (xs, us) => .ok xs us
 
+/-! ### the LQ object: `P`, `d`, `F` are carried across calls -/
+
+/-- an `LQ` instance: the data, `self.T` (`0` = `None`), `self.Rf`, and the mutable attributes
+    `self.P` (`none` = `None`), `self.d`, `self.F` -/
+structure Obj (α : Type) where
+  lq : LQ α
+  Tfin : Nat
+  Rf : M α
+  P : Option (M α)
+  d : α
+  F : Option (M α)
+
+/-- `__init__`, lines 136-151: finite horizon starts at `(Rf, 0)`, infinite horizon at `None` -/
+def objInit (lq : LQ α) (Tfin : Nat) (Rf : M α) : Obj α :=
+  if Tfin ≠ 0 then ⟨lq, Tfin, Rf, some Rf, 0, none⟩ else ⟨lq, 0, Rf, none, 0, none⟩
+
+/-- a public call; the Riccati solver's result is a parameter of the calls that may invoke it, the
+    shocks are a parameter of `compute_sequence` -/
+inductive Call (α : Type) where
+  | update
+  | stationary (Pric : M α)
+  | sequence (ts : Nat) (x0 W Pric : M α)
+
+inductive CallOut (α : Type) where
+  /-- `update_values` returns nothing -/
+  | unit
+  /-- `stationary_values` returns `(P, F, d)` -/
+  | stat (P F : M α) (d : α)
+  | seq (r : SeqOut α)
+  /-- an exception (`TypeError`: `self.P is None`; `LinAlgError`: `solve` raised); the state after an
+      exception is not modelled (returned unchanged) -/
+  | err (kind : String)
+
+/-- one call on the object: new state and what the call returns.
+    * `update_values` (lines 184-198) continues from the current `(P, d)`;
+    * `stationary_values` (lines 234-255) overwrites `(P, F, d)`;
+    * `compute_sequence`, finite horizon (lines 300-302, 320-324): **resets** `(P, d)` to `(Rf, 0)`, makes
+      `T = horizon Tfin ts` updates and leaves `(P_T, d_T)` and the last policy in the object;
+      infinite horizon (lines 305-308): calls `stationary_values` only if `self.P is None`, then uses
+      `T` copies of the current `self.F`. -/
+def objCall (sol : M α → M α → Option (M α)) (o : Obj α) : Call α → Obj α × CallOut α
+  | .update =>
+    match o.P with
+    | none => (o, .err "TypeError")
+    | some P =>
+      match lqUpdate sol o.lq ⟨P, o.d⟩ with
+      | none => (o, .err "LinAlgError")
+      | some (F, v) => ({ o with P := some v.P, d := v.d, F := some F }, .unit)
+  | .stationary Pric =>
+    match lqStationary sol o.lq Pric with
+    | none => (o, .err "LinAlgError")
+    | some (F, d) => ({ o with P := some Pric, d := d, F := some F }, .stat Pric F d)
+  | .sequence ts x0 W Pric =>
+    if o.Tfin ≠ 0 then
+      let T := horizon o.Tfin ts
+      match lqBackward sol o.lq T ⟨o.Rf, 0⟩ [] with
+      | none => (o, .seq .singular)
+      | some (pol, vT) =>
+        ({ o with P := some vT.P, d := vT.d, F := pol.getLast? },
+          .seq (match simulate o.lq pol T x0 W with
+                | none => .indexError
+                | some (xs, us) => .ok xs us))
+    else
+      let o1 : Option (Obj α) :=
+        match o.P with
+        | some _ => some o
+        | none =>
+          match lqStationary sol o.lq Pric with
+          | none => none
+          | some (F, d) => some { o with P := some Pric, d := d, F := some F }
+      match o1 with
+      | none => (o, .err "LinAlgError")
+      | some o1 =>
+        match o1.F with
+        | none => (o1, .err "TypeError")
+        | some F => (o1, .seq (computeSequenceInf o1.lq F ts x0 W))
+
+/-- a history of calls: the final object and the outputs (latest first) -/
+def runCalls (sol : M α → M α → Option (M α)) (o : Obj α) : List (Call α) → Obj α
+  | [] => o
+  | c :: r => runCalls sol (objCall sol o c).1 r
+
 /-! ### RBLQ -/
 
 /-- `d_operator`, _robustlq.py 108-115 -/
@@ -443,6 +525,58 @@ def handleG (pm : String → Option (List (List β))) (ps : String → Option β
         showSeq sm (computeSequenceInf lq (matOf F) ts (matOf x0) (matOf W))
       else "bad-op"
     | _, _, _, _, _ => "bad-op"
+  | "hist" :: r =>
+    -- one object, `calls=<count>` calls `c<i>=u|s|q` with parameters `Pric<i>`, `ts<i>`, `x0<i>`, `W<i>`
+    match parseLQ pm ps r, kvNat r "T", kvNat r "calls" with
+    | some lq, some T, some nc =>
+      let n := lq.R.nr
+      let Rf? : Option (M β) :=
+        if T = 0 then some (zero n n) else
+          match (kv r "Rf").bind pm with
+          | some Rf => if shape Rf n n then some (matOf Rf) else none
+          | none => none
+      match Rf? with
+      | none => "bad-op"
+      | some Rf =>
+        if T > 64 || nc > 12 then "bad-op" else
+        let showState (i : Nat) (o : Obj β) : String :=
+          let sP := match o.P with | none => "None" | some P => sm P
+          let sF := match o.F with | none => "None" | some F => sm F
+          let sd := match o.P with | none => "None" | some _ => sd o.d
+          s!"F{i}={sF} P{i}={sP} d{i}={sd}"
+        let rec go (fuel : Nat) (i : Nat) (o : Obj β) (acc : List String) : Option (List String) :=
+          match fuel with
+          | 0 => some acc.reverse
+          | fuel + 1 =>
+            let key (k : String) := kv r (k ++ toString i)
+            let pric : M β := match (key "Pric").bind pm with
+              | some P => if shape P n n then matOf P else zero n n
+              | none => zero n n
+            let call? : Option (Call β) :=
+              match key "c" with
+              | some "u" => some .update
+              | some "s" => if ((key "Pric").bind pm).isSome then some (.stationary pric) else none
+              | some "q" =>
+                match (key "ts").bind parseNat?, (key "x0").bind pm, (key "W").bind pm with
+                | some ts, some x0, some W =>
+                  if shape x0 n 1 && shape W lq.C.nc (horizon o.Tfin ts + 1) && ts ≤ 200 then
+                    some (.sequence ts (matOf x0) (matOf W) pric) else none
+                | _, _, _ => none
+              | _ => none
+            match call? with
+            | none => none
+            | some c =>
+              let (o', out) := objCall sol o c
+              match out with
+              | .err k => some ((s!"E{i}={k}" :: acc).reverse)
+              | .seq .singular => some ((s!"E{i}=LinAlgError" :: acc).reverse)
+              | .seq .indexError => some ((s!"E{i}=IndexError" :: acc).reverse)
+              | .seq (.ok xs us) => go fuel (i + 1) o' (s!"{showState i o'} x{i}={showMs sm xs} u{i}={showMs sm us}" :: acc)
+              | _ => go fuel (i + 1) o' (showState i o' :: acc)
+        match go nc 0 (objInit lq T Rf) [] with
+        | none => "bad-op"
+        | some l => if l.isEmpty then "-" else " ".intercalate l
+    | _, _, _ => "bad-op"
   | "rblqd" :: r =>
     match (kv r "C").bind pm, (kv r "theta").bind ps, (kv r "P").bind pm with
     | some C, some th, some P =>
